@@ -323,9 +323,9 @@ def gen_op(rng, cur, lean=False):
     if k in ("m", "u", "s"):
         return [k]
     z = rng.random()
-    if z < 0.04 and k == "r":
+    if z < 0.02 and k == "r":
         ids = []                                           # refuses (empty selection)
-    elif z < 0.08:
+    elif z < 0.04:
         ids = [len(pids) + rng.randint(0, 3)]              # only unknown ids: refuses
     else:
         pool = pids if pids else [0]
